@@ -32,9 +32,11 @@ matrices.  This avoids the O(N²) edge-creation overhead of the legacy
 
 import numpy as np
 from typing import Optional, Dict, Union
+from warnings import warn
 
 from pyrates.frontend.template.node import NodeTemplate
 from pyrates.frontend.template.edge import EdgeTemplate
+from pyrates.ir.circuit import PyRatesWarning
 
 
 class PopulationTemplate:
@@ -103,6 +105,14 @@ class PopulationTemplate:
 
                 var_data['value'] = new_val
                 var_data['shape'] = (len(new_val),)
+
+        # report entries of `params` that address no variable of the node (they would be dropped silently otherwise)
+        known = {f"{op_key}/{var_key}" for op_key in vec_node.op_graph.operators
+                 for var_key in vec_node.op_graph.nodes[op_key]['variables']}
+        for param_key in self.params:
+            if param_key not in known:
+                warn(PyRatesWarning(f"Parameter {param_key} of population {label} addresses no variable of its node template "
+                                    f"and has no effect."))
 
         vec_node.length = self.n
 
